@@ -1,5 +1,8 @@
 /-
   Lemmas/C17.lean — helper lemmas for C17.
+  Frame lemmas (which fields each routine can touch), the specification of prob_status, the invariant `Justified`
+  carried through the download loop, and `install_spec`, the three-way case analysis of install from which every
+  property theorem follows.
 -/
 import Kapture.Model.C17
 
@@ -11,5 +14,285 @@ def honest (content : Bytes) : Server := fun _ r =>
   | Req.probe => { fail := false, size := SizeAns.total content.length, body := [], abort := false }
   | Req.get none => { fail := false, size := SizeAns.absent, body := content, abort := false }
   | Req.get (some p) => { fail := false, size := SizeAns.absent, body := content.drop p, abort := false }
+
+/-- `w'` has the same local files/marks as `w` (only the request counter and log may differ) -/
+def SameDisk (w w' : World) : Prop :=
+  w'.archive = w.archive ∧ w'.installed = w.installed ∧ w'.extracted = w.extracted
+
+/-- `w'` has the same installed mark and extraction history as `w` (the archive may differ) -/
+def SameMarks (w w' : World) : Prop :=
+  w'.installed = w.installed ∧ w'.extracted = w.extracted
+
+theorem SameDisk.refl (w : World) : SameDisk w w := ⟨rfl, rfl, rfl⟩
+theorem SameMarks.refl (w : World) : SameMarks w w := ⟨rfl, rfl⟩
+theorem SameDisk.marks {w w' : World} (h : SameDisk w w') : SameMarks w w' := ⟨h.2.1, h.2.2⟩
+theorem SameMarks.trans {a b c : World} (h1 : SameMarks a b) (h2 : SameMarks b c) : SameMarks a c :=
+  ⟨h2.1.trans h1.1, h2.2.trans h1.2⟩
+theorem SameDisk.trans {a b c : World} (h1 : SameDisk a b) (h2 : SameDisk b c) : SameDisk a c :=
+  ⟨h2.1.trans h1.1, h2.2.1.trans h1.2.1, h2.2.2.trans h1.2.2⟩
+
+theorem request_frame (srv : Server) (w : World) (r : Req) : SameDisk w (request srv w r).1 :=
+  ⟨rfl, rfl, rfl⟩
+
+theorem remoteSize_eq (srv : Server) (w : World) :
+    ∃ r, remoteSize srv w = ((request srv w Req.probe).1, r) := by
+  unfold remoteSize
+  generalize request srv w Req.probe = p
+  rcases p with ⟨w', resp⟩
+  dsimp only
+  split
+  · exact ⟨_, rfl⟩
+  · split <;> exact ⟨_, rfl⟩
+
+theorem remoteSize_fst (srv : Server) (w : World) : (remoteSize srv w).1 = (request srv w Req.probe).1 := by
+  obtain ⟨r, h⟩ := remoteSize_eq srv w
+  rw [h]
+
+theorem remoteSize_frame (srv : Server) (w : World) : SameDisk w (remoteSize srv w).1 := by
+  rw [remoteSize_fst]; exact request_frame srv w _
+
+theorem probStatus_frame (srv : Server) (good : Bytes → Bool) (w : World) :
+    SameDisk w (probStatus srv good w).1 := by
+  have h := remoteSize_frame srv w
+  unfold probStatus
+  split
+  · exact SameDisk.refl w
+  · split
+    · exact SameDisk.refl w
+    · split
+      · simp_all
+      · simp_all
+      · simp_all
+        split
+        · assumption
+        · split
+          · assumption
+          · split <;> assumption
+
+theorem downloadResume_frame (srv : Server) (w : World) (pos : Option Nat) :
+    SameMarks w (downloadResume srv w pos).1 := by
+  have h := remoteSize_frame srv w
+  unfold downloadResume
+  split
+  · simp_all [SameDisk, SameMarks]
+  · rename_i w1 _ heq
+    rw [heq] at h
+    dsimp only
+    have key : ∀ r, SameMarks w (request srv w1 r).1 := fun r => (h.trans (request_frame srv w1 r)).marks
+    repeat' split
+    all_goals first | exact key _ | (simp only [SameMarks] at key ⊢; exact key _)
+
+theorem downloadFile_frame (srv : Server) (w : World) : SameMarks w (downloadFile srv w).1 := by
+  have h := remoteSize_frame srv w
+  unfold downloadFile
+  split
+  · split
+    · rename_i heq; rw [heq] at h; exact h.marks
+    · rename_i heq; rw [heq] at h; exact h.marks
+    · rename_i w1 n heq; rw [heq] at h
+      split
+      · exact h.marks
+      · exact h.marks.trans (downloadResume_frame srv w1 _)
+  · exact downloadResume_frame srv w none
+
+theorem downloadLoop_frame (srv : Server) (good : Bytes → Bool) (n : Nat) :
+    ∀ (w : World) (st : Status), SameMarks w (downloadLoop srv good n w st).1 := by
+  induction n with
+  | zero => intro w st; exact SameMarks.refl w
+  | succ n ih =>
+    intro w st
+    unfold downloadLoop
+    split
+    · exact SameMarks.refl w
+    · dsimp only
+      have h0 : SameMarks w (if st = Status.corrupted then { w with archive := none } else w) := by
+        split <;> exact ⟨rfl, rfl⟩
+      generalize (if st = Status.corrupted then { w with archive := none } else w) = w0 at h0 ⊢
+      have h1 := downloadFile_frame srv w0
+      split
+      · rename_i heq; rw [heq] at h1; exact h0.trans h1
+      · rename_i w1 heq; rw [heq] at h1
+        have h2 := (probStatus_frame srv good w1).marks
+        split
+        · rename_i heq2; rw [heq2] at h2; exact (h0.trans h1).trans h2
+        · rename_i w2 st' heq2; rw [heq2] at h2
+          exact ((h0.trans h1).trans h2).trans (ih w2 st')
+
+theorem download_frame (srv : Server) (good : Bytes → Bool) (w : World) (st : Status) :
+    SameMarks w (download srv good w st).1 := by
+  unfold download
+  split
+  · exact SameMarks.refl w
+  · exact downloadLoop_frame srv good 2 w st
+
+/-- `prob_status` answers `installed` exactly when the mark is set -/
+theorem probStatus_installed_iff (srv : Server) (good : Bytes → Bool) (w : World) :
+    (probStatus srv good w).2 = Except.ok Status.installed ↔ w.installed = true := by
+  unfold probStatus
+  split
+  · simp_all
+  · rename_i hi
+    simp only [hi]
+    split
+    · simp
+    · split
+      · simp
+      · simp
+      · repeat' split
+        all_goals simp
+
+/-- `prob_status` answers `downloaded` only for a present archive with a matching checksum -/
+theorem probStatus_downloaded (srv : Server) (good : Bytes → Bool) (w : World)
+    (h : (probStatus srv good w).2 = Except.ok Status.downloaded) :
+    ∃ a, w.archive = some a ∧ good a = true := by
+  unfold probStatus at h
+  split at h
+  · simp at h
+  · split at h
+    · simp at h
+    · rename_i a ha
+      refine ⟨a, ha, ?_⟩
+      split at h
+      · simp at h
+      · simp at h
+      · repeat' split at h
+        all_goals simp_all
+
+/-- a status is justified in a world: `downloaded` is only claimed for a present archive with a matching checksum -/
+def Justified (good : Bytes → Bool) (w : World) (st : Status) : Prop :=
+  (st = Status.downloaded → ∃ a, w.archive = some a ∧ good a = true) ∧
+  (st = Status.installed → w.installed = true)
+
+theorem probStatus_justified (srv : Server) (good : Bytes → Bool) (w w' : World) (st : Status)
+    (h : probStatus srv good w = (w', Except.ok st)) : Justified good w' st := by
+  have h2 := probStatus_frame srv good w
+  rw [h] at h2
+  constructor
+  · intro hst
+    subst hst
+    obtain ⟨a, ha, hg⟩ := probStatus_downloaded srv good w (by rw [h])
+    exact ⟨a, h2.1.trans ha, hg⟩
+  · intro hst
+    subst hst
+    exact h2.2.1.trans ((probStatus_installed_iff srv good w).1 (by rw [h]))
+
+theorem downloadLoop_justified (srv : Server) (good : Bytes → Bool) (n : Nat) :
+    ∀ (w w' : World) (st st' : Status), Justified good w st →
+      downloadLoop srv good n w st = (w', Except.ok st') → Justified good w' st' := by
+  induction n with
+  | zero =>
+    intro w w' st st' hj h
+    simp only [downloadLoop, Prod.mk.injEq, Except.ok.injEq] at h
+    obtain ⟨rfl, rfl⟩ := h
+    exact hj
+  | succ n ih =>
+    intro w w' st st' hj h
+    unfold downloadLoop at h
+    split at h
+    · simp only [Prod.mk.injEq, Except.ok.injEq] at h
+      obtain ⟨rfl, rfl⟩ := h
+      exact hj
+    · dsimp only at h
+      split at h
+      · simp at h
+      · split at h
+        · simp at h
+        · rename_i heq2
+          exact ih _ _ _ _ (probStatus_justified srv good _ _ _ heq2) h
+
+theorem download_justified (srv : Server) (good : Bytes → Bool) (w w' : World) (st st' : Status)
+    (hj : Justified good w st) (h : download srv good w st = (w', Except.ok st')) : Justified good w' st' := by
+  unfold download at h
+  split at h
+  · simp only [Prod.mk.injEq, Except.ok.injEq] at h
+    obtain ⟨rfl, rfl⟩ := h
+    exact hj
+  · exact downloadLoop_justified srv good 2 _ _ _ _ hj h
+
+/-- the three possible outcomes of `install` -/
+theorem install_spec (srv : Server) (good : Bytes → Bool) (force noClean : Bool) (w : World) :
+    ((install srv good force noClean w).2 = Except.ok Status.installed ∧ (w.installed = true ∧ force = false) ∧
+      (install srv good force noClean w).1.installed = true ∧
+      (install srv good force noClean w).1.extracted = w.extracted) ∨
+    ((install srv good force noClean w).2 ≠ Except.ok Status.installed ∧
+      (install srv good force noClean w).1.installed = false ∧
+      (install srv good force noClean w).1.extracted = w.extracted) ∨
+    ((install srv good force noClean w).2 = Except.ok Status.installed ∧ (w.installed = false ∨ force = true) ∧
+      (install srv good force noClean w).1.installed = true ∧
+      ∃ b, good b = true ∧ (install srv good force noClean w).1.extracted = w.extracted ++ [b]) := by
+  have h0 : (if force = true then { w with installed := false } else w).extracted = w.extracted ∧
+      ((if force = true then { w with installed := false } else w).installed = true ↔
+        (w.installed = true ∧ force = false)) := by
+    cases force <;> simp
+  unfold install
+  dsimp only
+  generalize (if force = true then { w with installed := false } else w) = w0 at h0 ⊢
+  have hi := probStatus_installed_iff srv good w0
+  have hf := probStatus_frame srv good w0
+  split
+  · rename_i w1 e heq
+    rw [heq] at hi hf
+    have hw0 : w0.installed = false := by
+      cases hw : w0.installed
+      · rfl
+      · exact absurd (hi.2 hw) (by simp)
+    right; left
+    exact ⟨by simp, hf.2.1.trans hw0, hf.2.2.trans h0.1⟩
+  · rename_i w1 heq
+    rw [heq] at hi hf
+    have hw0 : w0.installed = true := hi.1 rfl
+    left
+    exact ⟨rfl, h0.2.1 hw0, hf.2.1.trans hw0, hf.2.2.trans h0.1⟩
+  · rename_i w1 st hne heq
+    rw [heq] at hi hf
+    have hst : st ≠ Status.installed := fun hc => hne (by rw [hc])
+    have hw0 : w0.installed = false := by
+      cases hw : w0.installed
+      · rfl
+      · exact absurd (hi.2 hw) (by simpa using hst)
+    have hn : w.installed = false ∨ force = true := by
+      have := h0.2
+      rw [hw0] at this
+      cases hwi : w.installed
+      · left; rfl
+      · cases hfo : force
+        · exact absurd (this.2 ⟨hwi, hfo⟩) (by simp)
+        · right; rfl
+    have hw1i : w1.installed = false := hf.2.1.trans hw0
+    have hw1e : w1.extracted = w.extracted := hf.2.2.trans h0.1
+    have hj := probStatus_justified srv good w0 w1 st heq
+    have hd := download_frame srv good w1 st
+    split
+    · rename_i w2 e heq2
+      rw [heq2] at hd
+      right; left
+      exact ⟨by simp, hd.1.trans hw1i, hd.2.trans hw1e⟩
+    · rename_i w2 st2 heq2
+      rw [heq2] at hd
+      have hj2 := download_justified srv good w1 w2 st st2 hj heq2
+      have hw2i : w2.installed = false := hd.1.trans hw1i
+      have hw2e : w2.extracted = w.extracted := hd.2.trans hw1e
+      split
+      · right; left
+        refine ⟨?_, hw2i, hw2e⟩
+        intro hc
+        have hc' : st2 = Status.installed := by simpa using hc
+        have := hj2.2 hc'
+        rw [hw2i] at this
+        cases this
+      · rename_i hdn
+        have hst2 : st2 = Status.downloaded := Decidable.not_not.1 hdn
+        obtain ⟨a, ha, hg⟩ := hj2.1 hst2
+        split
+        · rename_i hnone
+          rw [ha] at hnone
+          cases hnone
+        · rename_i a' hsome
+          rw [ha] at hsome
+          cases hsome
+          right; right
+          refine ⟨rfl, hn, ?_, a, hg, ?_⟩
+          · cases noClean <;> rfl
+          · cases noClean <;> simp [hw2e]
 
 end Kapture.C17
